@@ -206,8 +206,8 @@ def poisson_config(h, mesh, spec, p, free=None, pt=None, reaction=False, dirichl
             Fn = np.setdiff1d(bnd, Fd)
             if len(Fn):
                 # natural boundary data g = grad(u*).n on the rest of the boundary (exact 1-D rule)
-                if default_rule:
-                    fb = S.FacetBasis(m, e, facets=Fn.astype(np.int32))
+                if default_rule or d == 1:
+                    fb = S.FacetBasis(m, e, facets=Fn.astype(np.int32))     # (1-D: the one-point rule on a vertex is exact)
                 else:
                     Xl, Wl = rule_arrays(h, *lattice_rule(d - 1, max(2 * p, 2)))
                     fb = S.FacetBasis(m, e, facets=Fn.astype(np.int32), quadrature=(Xl, Wl))
@@ -280,6 +280,8 @@ def projection_config(h, mesh, spec, kind, free=None):
             basis = S.CellBasis(m, e)
         elif kind == 'subset':
             basis = S.CellBasis(m, e, elements=np.array([1], dtype=np.int32))
+        elif kind.startswith('subset:'):
+            basis = S.CellBasis(m, e, elements=np.array([int(c) for c in kind.split(':')[1].split(',')], dtype=np.int32))
         else:
             basis = S.FacetBasis(m, e)
         N = int(basis.N)
@@ -288,6 +290,52 @@ def projection_config(h, mesh, spec, kind, free=None):
         h.sample(dict(mesh=mesh, element=spec, basis=kind, N=N))
         res = (M @ x) - f
         h.zero('M x == f(u_h)', np.asarray(res))
+
+
+def project_subset_config(h, mesh, spec, cells, free=None):
+    """CellBasis(elements=S).project(u_h) with the numerical solve cut: the system handed to the solver keeps exactly the DOFs of
+    the cells of S, every kept DOF has a non-vanishing mass diagonal (no singular rows), and the condensed equations hold at the
+    coefficients of u_h; replay: the real solve returns those coefficients."""
+    import skfem as S
+    import skfem.utils as U
+    with warnings.catch_warnings():
+        warnings.simplefilter('ignore')
+        install(h)
+        m = make_mesh(h, mesh, free=free)
+        e = make_elem(spec)
+        dt = object if h.sym_mode else np.float64
+        sel = np.array(cells, dtype=np.int32)
+        basis = S.CellBasis(m, e, elements=sel)
+        N = int(basis.N)
+        own = sorted(set(int(g) for g in np.asarray(basis.element_dofs).ravel()))     # element_dofs of a subset basis lists the selected cells only
+        x = h.sym('x', (N,), nominal=(np.arange(N) * 5 % 7) - 2.5)
+        xs = np.array([x[i] if i in own else 0 * x[i] for i in range(N)], dtype=object if h.sym_mode else float)
+        uh = basis.interpolate(xs)
+        h.sample(dict(mesh=mesh, element=spec, cells=list(map(int, cells)), N=N, dofs_of_the_cells=len(own)))
+        if h.sym_mode:
+            seen = {}
+            real_solve = U.solve
+            U.solve = lambda A, b, x=None, I=None, **kw: seen.update(A=A, b=b, x=x, I=I) or np.zeros(N, dtype=object)
+            h.stub('skfem.utils.solve inside CellBasis.project -> spy recording the system handed to the solver (the solve is cut)')
+            try:
+                basis.project(uh, dtype=dt)
+            finally:
+                U.solve = real_solve
+            I = np.asarray(seen['I'])
+            h.concrete('kept set == DOFs of the selected cells', sorted(int(i) for i in I) == own,
+                       'extra %s missing %s' % (sorted(set(I.tolist()) - set(own))[:6], sorted(set(own) - set(I.tolist()))[:6]))
+            A, b = seen['A'], np.asarray(seen['b'])
+            Ad = A.toarray() if hasattr(A, 'toarray') else np.asarray(A)
+            for k, i in enumerate(I):
+                h.nonzero_somewhere('kept DOF %d has a non-vanishing mass diagonal' % i, Ad[k, k])
+            res = np.asarray(A @ xs[I]) - b
+            for k, i in enumerate(I):
+                h.zero('condensed projection equation of kept DOF %d holds at the coefficients of u_h' % i, res[k])
+        else:
+            y = np.asarray(basis.project(uh), dtype=float)
+            h.concrete('projection is finite', bool(np.isfinite(y).all()))
+            for i in range(N):
+                h.zero('project(u_h)[%d] == coefficient of u_h (zero outside the cells)' % i, (y[i] if np.isfinite(y[i]) else 1e9) - xs[i], scale=10.0)
 
 
 def build_configs(tier, seed):
@@ -313,6 +361,10 @@ def build_configs(tier, seed):
     for sp in (splits if not quick else splits[::3]):
         add('poisson/tri2heron/ElementTriP2/dirichlet=%s' % ''.join(map(str, sp)), poisson_config, mesh='tri2heron', spec='ElementTriP2', p=2,
             free='none', dirichlet=sp, reaction=True)
+    # 1-D: Neumann datum u'n at one end (all coordinates symbolic: cells may run left-to-right or right-to-left)
+    for sp in ([0], [1]):
+        add('poisson/line3perm/ElementLineP2/dirichlet=%d' % sp[0], poisson_config, mesh='line3perm', spec='ElementLineP2', p=2, dirichlet=sp, reaction=True)
+    add('poisson/line2/ElementLineP1/dirichlet=1', poisson_config, mesh='line2', spec='ElementLineP1', p=1, dirichlet=[1])
     # the library's default quadrature on numeric geometry (tolerance 1e-9 over the coefficient box)
     add('default-rule/tet2/ElementTetP2/mixed', poisson_config, mesh='tet2', spec='ElementTetP2', p=2, free='none', reaction=True, default_rule=True,
         dirichlet=[0, 1], timeout=1500)
@@ -326,6 +378,11 @@ def build_configs(tier, seed):
     for mesh, spec in (('tri2', 'ElementTriP2'), ('tri2', 'ElementTriRT1'), ('line3perm', 'ElementLineP2'), ('quad2', 'ElementQuad1')):
         for kind in ('cell', 'subset') + (('facet',) if spec == 'ElementTriP2' else ()):
             add('projection/%s/%s/%s' % (mesh, spec, kind), projection_config, mesh=mesh, spec=spec, kind=kind, free=([2] if mesh == 'quad2' else None))
+    # a cell subset whose vertices span a facet that belongs to none of its cells
+    add('projection/tri3fan/ElementTriP2/subset:1,2', projection_config, mesh='tri3fan', spec='ElementTriP2', kind='subset:1,2', free=[1, 4])
+    add('project/tri3fan/ElementTriP2/cells=1,2', project_subset_config, mesh='tri3fan', spec='ElementTriP2', cells=[1, 2], free=[1, 4])
+    add('project/tri3fan/ElementTriP1/cells=2', project_subset_config, mesh='tri3fan', spec='ElementTriP1', cells=[2])
+    add('project/tri4patch/ElementTriP2/cells=0,2', project_subset_config, mesh='tri4patch', spec='ElementTriP2', cells=[0, 2], free=[4])
     return cfgs
 
 
